@@ -96,12 +96,14 @@ def canon(v):
 # generators
 
 def gen_literal(rng, depth=0, hashable=False):
+    # ('long*' / 'bigint': longer than the limits a reprlib-based renderer abbreviates at by default - 6 elements, 4 dict
+    # entries, 30 characters, 40 digits)
     kinds = ['int', 'negint', 'str', 'qstr', 'dotstr', 'nlstr', 'none', 'float', 'bool', 'bytes',
-             'builtin', 'tuple0', 'tuple1', 'tuplen']
+             'builtin', 'longstr', 'bigint', 'tuple0', 'tuple1', 'tuplen', 'longtuple', 'longfset']
     if not hashable:
-        kinds += ['list', 'dict']
+        kinds += ['list', 'dict', 'longlist', 'longdict', 'longset']
     if depth >= 2:
-        kinds = kinds[:11]
+        kinds = kinds[:13]
     k = rng.choice(kinds)
     return k, _lit(rng, k, depth)
 
@@ -129,6 +131,20 @@ def _lit(rng, k, depth):
         return rng.choice([b'', b'ab', b"q'"])
     if k == 'builtin':
         return rng.choice([len, int, str, sorted, dict])
+    if k == 'longstr':
+        return rng.choice(['x' * 45, 'long string with spaces and a quote \' somewhere in the middle of it'])
+    if k == 'bigint':
+        return rng.choice([10 ** 60 + 7, -(10 ** 45)])
+    if k == 'longtuple':
+        return tuple(range(rng.randint(7, 9)))
+    if k == 'longfset':
+        return frozenset(range(rng.randint(7, 9)))
+    if k == 'longlist':
+        return list(range(rng.randint(7, 9)))
+    if k == 'longset':
+        return set(range(rng.randint(7, 9)))
+    if k == 'longdict':
+        return {'k%d' % i: i for i in range(rng.randint(5, 7))}
     if k == 'tuple0':
         return ()
     if k == 'tuple1':
